@@ -546,6 +546,27 @@ fn main() {
             }
         }
     }
+    // very long fields (every counter a decoder may keep per field wraps somewhere): lengths around
+    // the powers of two up to 70000, all-significant digits, leading zeros + tail, in each position
+    {
+        let mut lens: Vec<usize> = vec![33, 34, 63, 64, 65, 100, 127, 128, 129, 250, 255, 256, 257, 258, 266, 300, 511, 512, 513, 1000, 4095, 4096, 4097, 65535, 65536, 65537, 70000];
+        lens.extend([17usize, 18, 31, 32]);
+        let good = ["00", "0af7651916cd43dd8448eb211c80319c", "b7ad6b7169203331", "01"];
+        for &n in &lens {
+            for digit in ["f", "1", "a"] {
+                let all = digit.repeat(n);
+                let zeros_then = format!("{}{}", "0".repeat(n - 1), digit);
+                let one_then_zeros = format!("1{}", "0".repeat(n - 1));
+                for long in [&all, &zeros_then, &one_then_zeros] {
+                    for pos in 1..4 {
+                        let mut parts: Vec<String> = good.iter().map(|x| x.to_string()).collect();
+                        parts[pos] = long.clone();
+                        check_text(&mut st, &parts.join("-"));
+                    }
+                }
+            }
+        }
+    }
     // field counts 0..6
     let good = "00-0af7651916cd43dd8448eb211c80319c-b7ad6b7169203331-01";
     for n in 0..7 {
